@@ -120,7 +120,7 @@ theorem setDataInner_refines {s v p t u m} (F : Focus s v p t u m) (c : Calm m) 
   simp only [Bool.false_eq_true, if_false]
   by_cases h1 : (encode t u).length < (encode t u').length
   · simp only [h1, if_true]
-    obtain ⟨G, m1, hG, hadd, hb1, ho1, hr1⟩ := F.grow c 0 ((encode t u').length - (encode t u).length)
+    obtain ⟨G, m1, _, hG, hadd, hb1, ho1, hr1⟩ := F.grow c 0 ((encode t u').length - (encode t u).length)
       (by omega) (by omega)
     rw [Nat.add_zero] at hadd
     rw [hadd]
